@@ -354,6 +354,7 @@ func (d dataChannelHandlerWithRelayURL) datachannelHandler(conn *webRTCConn, rem
 func (sf *SnowflakeProxy) makePeerConnectionFromOffer(sdp *webrtc.SessionDescription,
 	config webrtc.Configuration,
 	dataChan chan struct{},
+	claim *sync.Once,
 	handler func(conn *webRTCConn, remoteAddr net.Addr)) (*webrtc.PeerConnection, error) {
 
 	s := webrtc.SettingEngine{}
@@ -363,13 +364,14 @@ func (sf *SnowflakeProxy) makePeerConnectionFromOffer(sdp *webrtc.SessionDescrip
 	if err != nil {
 		return nil, fmt.Errorf("accept: NewPeerConnection: %s", err)
 	}
-	var dataChanOnce sync.Once
 	pc.OnDataChannel(func(dc *webrtc.DataChannel) {
 		log.Println("OnDataChannel")
-		// The remote client decides how many data channels it opens. Only
-		// the first one is served: one session slot, one handler.
+		// The remote client decides how many data channels it opens, and
+		// when. Only the first one is served, and only if the session has
+		// not timed out: one session slot, one handler. claim is shared
+		// with runSession, which gives the slot back itself on timeout.
 		first := false
-		dataChanOnce.Do(func() { first = true })
+		claim.Do(func() { first = true })
 		if !first {
 			log.Println("Ignoring an additional data channel")
 			dc.Close()
@@ -526,8 +528,11 @@ func (sf *SnowflakeProxy) runSession(sid string) {
 		return
 	}
 	dataChan := make(chan struct{})
+	// claim decides who returns the token of this session: the handler of
+	// the client's data channel, or this function when it times out.
+	var claim sync.Once
 	dataChannelAdaptor := dataChannelHandlerWithRelayURL{RelayURL: relayURL, sf: sf}
-	pc, err := sf.makePeerConnectionFromOffer(offer, config, dataChan, dataChannelAdaptor.datachannelHandler)
+	pc, err := sf.makePeerConnectionFromOffer(offer, config, dataChan, &claim, dataChannelAdaptor.datachannelHandler)
 	if err != nil {
 		log.Printf("error making WebRTC connection: %s", err)
 		tokens.ret()
@@ -549,6 +554,14 @@ func (sf *SnowflakeProxy) runSession(sid string) {
 	case <-dataChan:
 		log.Println("Connection successful.")
 	case <-time.After(dataChannelTimeout):
+		timedOut := false
+		claim.Do(func() { timedOut = true })
+		if !timedOut {
+			// The client opened its data channel just as the timer
+			// fired; the handler has the token now.
+			log.Println("Connection successful.")
+			return
+		}
 		log.Println("Timed out waiting for client to open data channel.")
 		if err := pc.Close(); err != nil {
 			log.Printf("error calling pc.Close: %v", err)
